@@ -67,6 +67,38 @@ Section C15.
   Proof. exact (checksum_of_record schema V C c0 eval marshal marshal_err_cont H canon CInv content_stable_per_id CInv_mono eval_cache_transparent eval_id_renaming eval_caches_sound). Qed.
 End C15.
 
+(* ---- checksum canon (Model/Pipeline.v j2 transcribes idr/marshal2.go J2NodeToInterface) ------- *)
+(* Flat formats (csv, csv2 / fixedlength2 / fixed-length columns, EDI elements): a record is an
+   element whose children are named elements holding one text node.  With pairwise distinct
+   column names (>= 2 of them): different ingested values => different canon. *)
+Theorem canon_injective_flat : forall r names vals vals',
+  NoDup names -> 2 <= length names ->
+  length vals = length names -> length vals' = length names ->
+  j2 (flat_rec r (combine names vals)) = j2 (flat_rec r (combine names vals')) -> vals = vals'.
+Proof. exact canon_injective_flat. Qed.
+
+Section Checksum.
+  Variable enc : jv -> bytes.      (* json.Marshal of the value tree *)
+  Variable H : bytes -> bytes.     (* MD5 / UUIDv3 *)
+  Hypothesis enc_injective : forall a b, enc a = enc b -> a = b.
+  Hypothesis H_injective : forall a b, H a = H b -> a = b.
+
+  Theorem checksum_injective_flat : forall r names vals vals',
+    NoDup names -> 2 <= length names ->
+    length vals = length names -> length vals' = length names ->
+    checksum enc H (flat_rec r (combine names vals)) = checksum enc H (flat_rec r (combine names vals')) ->
+    vals = vals'.
+  Proof. exact (checksum_injective_flat enc H enc_injective H_injective). Qed.
+
+  (* For XML the full statement "different ingested values => different checksum" is false. *)
+  Theorem checksum_xml_refuted : exists t t', t <> t' /\ checksum enc H t = checksum enc H t'.
+  Proof. exact (checksum_xml_refuted enc H). Qed.
+End Checksum.
+
+Example c15_flat_canon_value :
+  j2 (flat_rec [] (combine [[x61]; [x62]] [[x31]; [x32]])) = JObj [([x61], JStr [x31]); ([x62], JStr [x32])].
+Proof. vm_compute. reflexivity. Qed.
+
 (* XML: different ingested values, equal canon (F12, both halves) *)
 Theorem xml_checksum_refuted :
   (f12_a <> f12_b /\ j2 f12_a = j2 f12_b) /\ (f12_c <> f12_d /\ j2 f12_c = j2 f12_d).
